@@ -59,6 +59,34 @@ def steps_for(name, x):
     return role, prefix + [('peer', [blob[:x]]), ('user', user), ('peer', [blob[x:]])] + suffix
 
 
+def simultaneous(res, name, replay_case=None):
+    """The burst arrives and the user issues its primitive in the same instant: the provider may
+    take them in either order, but the outcome is that of one of the two orders."""
+    from . import c03
+    role, prefix, user, burst, suffix = corpus()[name]
+    orders = {'burst-first': prefix + [('peer', [b''.join(burst)]), ('user', user)] + suffix,
+              'user-first': prefix + [('user', user), ('peer', [b''.join(burst)])] + suffix}
+    bases = {}
+    for label, steps in orders.items():
+        obs, _ = c03.observe(role, steps, None, 'whole', 65536, False)
+        if obs['outcome'] == 'end-of-script':
+            bases[label] = obs
+    if not bases:
+        return
+    case = {'straddle': True, 'conversation': name, 'x': 'simultaneous', 'recv': 65536}
+    obs, delivered = c03.observe(role, prefix + [('both', burst, user)] + suffix, None, 'whole', 65536, False)
+    res.evaluations += 1
+    res.distinct.add('straddle|%s|simultaneous' % name)
+    res.count('oracle.simultaneous-local-step')
+    channels = ('outcome', 'events', 'indications', 'wire', 'state', 'closed', 'timer')
+    if not any(all(obs[c] == b[c] for c in channels) for b in bases.values()):
+        label, b = sorted(bases.items())[0]
+        diff = [c for c in channels if obs[c] != b[c]]
+        res.violation('simultaneous-step-matches-neither-order', 'C03.differential',
+                      '%s: burst and local %s at the same moment: differs from both orders (from %s in %r)%s'
+                      % (name, user, label, diff, (' error=%s' % obs['error']) if obs['error'] else ''), case)
+
+
 def run(res, tier, seed, replay_case=None):
     from . import c03
     names = sorted(corpus()) if replay_case is None else [replay_case['conversation']]
@@ -72,6 +100,10 @@ def run(res, tier, seed, replay_case=None):
                           {'straddle': True, 'conversation': name, 'x': 0, 'recv': 65536})
             continue
         first = len(burst[0])
+        if replay_case is None or replay_case['x'] == 'simultaneous':
+            simultaneous(res, name, replay_case)
+        if replay_case is not None and replay_case['x'] == 'simultaneous':
+            continue
         for recv in RECV_SIZES:
             for x in range(1, first):
                 case = {'straddle': True, 'conversation': name, 'x': x, 'recv': recv}
